@@ -77,6 +77,13 @@ def outcome(ctx, b, env, depth=0):
             return ev_bool(a[1], env) == a[2]
         if a[0] == "is" and a[1][0] == "call" and a[1][1].endswith("Try::branch"):
             inner = a[1][2][0]
+            if inner[0] == "phi" and len(inner) > 2 and inner[2] is not None:
+                # `let r = if first { validate_first(..) } else { validate_next(..) }; r?` (also through an inlined helper):
+                # the arm whose own guard holds under this assignment decides
+                for g2, t2, bi2 in b.local_cases(inner[2]):
+                    if any(all(val(x) for x in conj) for conj in g2):
+                        return val(("is", ("call", a[1][1], (t2,)) + tuple(a[1][3:]), a[2], a[3], a[4]))
+                return False    # no arm assigns the value under this assignment: the `?` is not reached at all
             if inner[0] == "call" and inner[1] in ctx.facts.bodies and [render(x) for x in inner[2]] == ["self", "update"] and depth < 2:
                 res = outcome(ctx, ctx.ibody(inner[1]), env, depth + 1)
                 return ("Continue" if res == "ok" else "Break") in a[2]
@@ -176,14 +183,22 @@ def r2(ctx):
                   got={k: v[1] for k, v in got.items()}, key="only-on-accept")
         if venue == "spot" and "self.prev_last_update_id" in got and "self.last_update_id" in got:
             p, l = got["self.prev_last_update_id"], got["self.last_update_id"]
-            ctx.check("spot:validate_sequence", (p[2] == l[2] and p[3] < l[3]) or (p[2] != l[2] and b.dominates(p[2], l[2])),
-                      "the previous id is saved before the current id is overwritten", key="prev-first")
+            before = (p[2] == l[2] and p[3] < l[3]) or (p[2] != l[2] and b.dominates(p[2], l[2]))
+            if not before:
+                # `prev = mem::replace(&mut last, new)`: the value stored into prev was READ from last before last is overwritten
+                ps = [s_ for s_ in st if render(s_[2]) == "self.prev_last_update_id"]
+                rv = ps[0][4].get("rv", {}) if ps else {}
+                r0 = common.origin_read(b, rv.get("o", {})) if rv.get("r") == "use" else None
+                before = r0 is not None and r0[2] == "self.last_update_id" and \
+                    ((r0[0] == l[2] and r0[1] < l[3]) or (r0[0] != l[2] and b.dominates(r0[0], l[2])))
+            ctx.check("spot:validate_sequence", before,
+                      "the previous id is saved (read) before the current id is overwritten", key="prev-first")
         # who may write
         adt = seq
         for fld in ("last_update_id", "updates_processed"):
             ws = [w for w in whomay.writers_of(ctx.facts, adt, fld) if not common.is_test(ctx.facts, w[0])
                   and not common.is_derived(ctx.facts, whomay.owner_fn(w[0])) and w[2] != "construct"]
-            owners = sorted(set(mir.short(whomay.owner_fn(w[0])) for w in ws))
+            owners = sorted(set(mir.short(o) for w in ws for o in common.effective_owners(ctx.facts, w[0])))
             ctx.check("%s:%s" % (venue, fld), owners == [mir.short(seq) .split("::")[-1] + "::validate_sequence"],
                       "only validate_sequence changes the sequencer state", got=owners, key="writers")
 
